@@ -845,6 +845,13 @@ func (lc *linCtx) condFacts(cond ssa.Value, val bool) {
 			lc.condFacts(x.X, !val)
 		}
 	case *ssa.BinOp:
+		// a nil slice has no elements: `lines == nil` says len(lines) <= 0
+		if sl := nilComparedSlice(x.X, x.Y); sl != nil && (x.Op == token.EQL || x.Op == token.NEQ) {
+			if (x.Op == token.EQL) == val {
+				lc.facts = append(lc.facts, geq(linConst(0), lc.lenVar(sl)))
+			}
+			return
+		}
 		if !isIntType(x.X.Type()) || !isIntType(x.Y.Type()) {
 			return
 		}
@@ -905,6 +912,14 @@ func (lc *linCtx) litFacts(l Lit) (linAlt, [][]linAlt) {
 		}
 		return linAlt{geq(x, y)}, nil
 	case "eq":
+		if l.X != nil && l.Y != nil {
+			if sl := nilComparedSlice(l.X, l.Y); sl != nil {
+				if l.Pos {
+					return linAlt{geq(linConst(0), lc.lenVar(sl))}, nil
+				}
+				return linAlt{}, nil // not nil: nothing about its length, but an alternative that can be expressed
+			}
+		}
 		if l.X == nil || l.Y == nil || !isIntType(l.X.Type()) || !isIntType(l.Y.Type()) {
 			return nil, nil
 		}
@@ -1592,4 +1607,23 @@ func runeConversion(cv *ssa.Convert) int {
 		return 2
 	}
 	return 0
+}
+
+// nilComparedSlice: one of a, b is the nil constant and the other a slice: that slice.
+func nilComparedSlice(a, b ssa.Value) ssa.Value {
+	isNil := func(v ssa.Value) bool {
+		cs, ok := v.(*ssa.Const)
+		return ok && cs.Value == nil
+	}
+	isSl := func(v ssa.Value) bool {
+		_, ok := v.Type().Underlying().(*types.Slice)
+		return ok
+	}
+	switch {
+	case isNil(b) && isSl(a):
+		return a
+	case isNil(a) && isSl(b):
+		return b
+	}
+	return nil
 }
